@@ -276,10 +276,10 @@ func (ex *Exec) assignStmt(st *State, s *ast.AssignStmt, k func(*State)) {
 	if len(s.Rhs) == 1 && len(s.Lhs) == 2 {
 		switch r := unparen(s.Rhs[0]).(type) {
 		case *ast.IndexExpr:
-			if _, ok := ex.typeOf(r.X).Underlying().(*types.Map); ok {
+			if _, ok := under(ex.typeOf(r.X)).(*types.Map); ok {
 				ex.eval(st, r.X, func(st2 *State, m Val) {
 					ex.eval(st2, r.Index, func(st3 *State, key Val) {
-						key = ex.convert(st3, key, ex.typeOf(r.X).Underlying().(*types.Map).Key())
+						key = ex.convert(st3, key, under(ex.typeOf(r.X)).(*types.Map).Key())
 						ok := app("select", app("m-dom", m.T), key.T)
 						v := Val{T: ite(ok, app("select", app("m-val", m.T), key.T), zeroOf(m.S.Elem)), S: m.S.Elem, GoT: elemGoType(m.GoT)}
 						assignAll(st3, []Val{v, {T: ok, S: SBool, GoT: types.Typ[types.Bool]}})
@@ -339,7 +339,7 @@ func (ex *Exec) assignTo(st *State, lhs ast.Expr, v Val, k func(*State)) {
 		k(st)
 	case *ast.StarExpr:
 		ex.eval(st, l.X, func(st2 *State, p Val) {
-			elem := ex.typeOf(l.X).Underlying().(*types.Pointer).Elem()
+			elem := under(ex.typeOf(l.X)).(*types.Pointer).Elem()
 			ex.store(st2, p, elem, ex.convert(st2, v, elem))
 			k(st2)
 		})
@@ -358,8 +358,8 @@ func (ex *Exec) assignTo(st *State, lhs ast.Expr, v Val, k func(*State)) {
 				cur = ex.fieldPath(st2, base, idx[:len(idx)-1])
 			}
 			t := cur.GoT
-			if p, ok := t.Underlying().(*types.Pointer); ok {
-				stt := p.Elem().Underlying().(*types.Struct)
+			if p, ok := under(t).(*types.Pointer); ok {
+				stt := under(p.Elem()).(*types.Struct)
 				f := stt.Field(idx[len(idx)-1])
 				ex.storeField(st2, cur, p.Elem(), f, ex.convert(st2, v, f.Type()))
 				k(st2)
@@ -368,7 +368,7 @@ func (ex *Exec) assignTo(st *State, lhs ast.Expr, v Val, k func(*State)) {
 			if len(idx) > 1 {
 				ex.oof(l.Pos(), "assignment through embedded struct value")
 			}
-			stt := t.Underlying().(*types.Struct)
+			stt := under(t).(*types.Struct)
 			ss := ex.sortOf(t)
 			var args []string
 			for i := 0; i < stt.NumFields(); i++ {
@@ -383,7 +383,7 @@ func (ex *Exec) assignTo(st *State, lhs ast.Expr, v Val, k func(*State)) {
 		})
 	case *ast.IndexExpr:
 		xt := ex.typeOf(l.X)
-		switch u := xt.Underlying().(type) {
+		switch u := under(xt).(type) {
 		case *types.Map:
 			ex.eval(st, l.X, func(st2 *State, m Val) {
 				ex.eval(st2, l.Index, func(st3 *State, key Val) {
@@ -635,7 +635,7 @@ func (ex *Exec) rangeStmt(st *State, s *ast.RangeStmt, c *ctl, k func(*State)) {
 	keyObj, valObj = defObj(s.Key), defObj(s.Value)
 	ord, ls := ex.loopSpec(s)
 	bodyPos := s.Body.Lbrace
-	switch u := xt.Underlying().(type) {
+	switch u := under(xt).(type) {
 	case *types.Slice, *types.Array, *types.Basic:
 		isInt := false
 		if b, ok := u.(*types.Basic); ok {
@@ -907,7 +907,7 @@ func (ex *Exec) typeSwitchStmt(st *State, s *ast.TypeSwitchStmt, c *ctl, k func(
 func (ex *Exec) typeAssert(st *State, x Val, t types.Type) (Val, string) {
 	ex.declare("(declare-fun typeOf (Ref) Int)")
 	s := ex.sortOf(t)
-	if _, isIface := t.Underlying().(*types.Interface); isIface {
+	if _, isIface := under(t).(*types.Interface); isIface {
 		ex.declare("(declare-fun implements (Int Int) Bool)")
 		ok := and(not(eq(x.T, "0")), app("implements", app("typeOf", x.T), ex.typeTag(t)))
 		return Val{T: ite(ok, x.T, "0"), S: SRef, GoT: t}, ok
